@@ -96,7 +96,7 @@ def run(ctx):
     ]
     bad = common.forbidden_scan()
     tj = gen.gen_tables()
-    cres = common.coq_property(PID)
+    cres = common.coq_properties([PID, "C03_build"])
     common.proof_coverage(ctx, cres)
     proof_broken = (not cres["ok"]) or bool(bad)
     h01 = common.build_harness("c01_harness", tag="-vfmem", libs=("-lexpat", "-lpthread"))
